@@ -16,6 +16,9 @@ All rules are phrased on roles and values, not on spelling:
   *trackers* (bytes accumulator, list of words that is joined, in-memory stream, byte counter counting up or down)
   and on the CFG specialised to "n > 0 and more than n bytes consumed", not on the literal `data += ...`;
 * helpers of the module that the normaliser could not inline are followed where the rule needs them (R4);
+* state kept in instance attributes between calls is found by who writes it (any method but the constructor) and who reads
+  it back (the read path), not by name; what it must satisfy is stated on the CFG of every method of the class - no path
+  may move the underlying cursor and leave a cached rolling key behind (R6);
 * a verdict is `violated` only when the construct was located and is expressed in the vocabulary of the rule; a
   polynomial with foreign atoms, a shape the rule does not understand, or a missing anchor construct gives `undecided`.
 
@@ -35,7 +38,8 @@ fixpoint rounds of the analysis over names/collections, not over inputs.
   over SEEK_SET/SEEK_CUR/SEEK_END - the branch tests / `match` cases / constant-keyed dict lookups on `whence` become constant
   under the case; None / not None and flag narrowing `_narrow`), 6 (`_const`: constant folding incl. `len(<constant>)` and
   `struct.calcsize(<constant format>)`).  Lemmas: L1 cursor typestate, L2 span slicing, L3 u32/XOR, L4 integer order.
-* R2 (read accounting): 1, 2 (CFG reachability / dominance / `all_paths_pass` on the CFG specialised under the named
+* R2 (read accounting; a give-back through the view's own `self.seek(d, SEEK_CUR)` counts as the relative seek R1 shows it
+  to be): 1, 2 (CFG reachability / dominance / `all_paths_pass` on the CFG specialised under the named
   assumptions "n == 0", "n > 0", "the chunk just read is non-empty", "more than n bytes consumed"), 3 (reaching definitions
   of chunk / accumulator / returned value; give-back offset and truncation bound compared as polynomials over n,
   <bytes consumed>, <raw position>), 4 (length domain: trackers stand for the symbol <bytes consumed>).  Lemmas: L5
@@ -48,6 +52,15 @@ fixpoint rounds of the analysis over names/collections, not over inputs.
   exits), 3 (reaching definitions of the returned view; def-use provenance of the candidate collection; range arguments /
   counter init, step and bound as polynomials - the loop is read once), 5 (None / not None alternatives of the candidate),
   6 (marker constant compared with the reference value, default arguments of find_mz_offset).  Lemmas: L4, L8 scan coverage.
+* R6 (state carried across calls): 1 (who-may-write / who-may-read of the instance attributes over all methods of the class: stores,
+  augmented / item stores, in-place mutation vs loads on the read path; resolved `self.m()` callees; role "rolling key" = the
+  attribute flows into a value returned by read_nonce() or into the key operand of the decode step), 3 (reaching definitions of
+  the stored value and of the locals it travels through - the def-use hops of a whole word read at the cursor / a read_nonce()
+  result; read_nonce's own seek/read as cursor typestate from the symbol <raw position>: they cancel), 2 (CFG reachability with
+  the stores as barriers: ENTRY -> movement -> EXIT, store -> movement -> EXIT, definition -> movement -> use; a read bound to a
+  local is a movement under the named assumption "the chunk just read is non-empty"; dominating `is None` tests), 5 (None / not
+  None of the cached value).  Lemma: L9.  Attributes in other roles (remembered position, buffer), caches validated where they
+  are used, and stored values other than constants / whole words are undecided.
 * R5: the scanner obligations of rules/c15.py (`scanner_obligations`), imported unchanged - see that module: structural
   shape, interval abstract interpretation `absint.Interp`, polynomials, CFG (devices 1-4).
 
@@ -67,6 +80,11 @@ Lemmas / library model relied on (also listed in `rep.trusted_base`):
       <tell before the reads> + n) leaves the underlying file at p0 + n: exactly the n bytes that `acc[:n]` returns.
   L8  `range(0, m, 1)` - or a counter that starts at 0, advances by exactly 1 per iteration and is used under `i < m` -
       visits every integer 0 .. m - 1.
+  L9  the rolling key of raw position p (beyond the first word) is raw[p - 4 : p] (R3): a whole word read at the cursor is the key
+      of the position right after that read, read_nonce() returns the key of the position it is called at, and - the file
+      contents being arbitrary - neither is the key of any other position.  A key kept in an attribute for a later call is
+      therefore right only if the underlying cursor has not moved since the word was read / since it was stored, or a constant
+      ("nothing cached") has been stored since.
 """
 
 from __future__ import annotations
@@ -505,7 +523,11 @@ def run(ctx):
         "either the whole decoded data, or a truncation preceded by a relative give-back seek of n - <bytes consumed>; n == 0 "
         "consumes nothing); the rolling key chains on ciphertext (reaching definitions of the key operand, every-iteration / "
         "after-use path conditions); detection returns a candidate only after the MZ validation and a rewind (dominance, "
-        "None-case analysis, def-use provenance of the candidate collection, scan range as polynomials)."
+        "None-case analysis, def-use provenance of the candidate collection, scan range as polynomials); the cursor of the "
+        "underlying file is the only state carried from one call to the next - an attribute written outside the constructor and "
+        "read back on the read path is either a memo of the constructor's data, or a cached rolling key that every movement of "
+        "the underlying cursor resets or re-establishes (who-writes / who-reads over the methods of the class, CFG reachability "
+        "with the stores as barriers, def-use hops of the stored word), or it is reported as undecided."
     )
     rep.not_decided = [
         "plaintext equality for all seek/read histories",
@@ -513,6 +535,9 @@ def run(ctx):
         "short reads of the header words / OSError paths of read_nonce (the cursor typestate assumes reads of k bytes return k bytes)",
         "seek() forms in which a test that matters does not become constant under whence == SEEK_SET/SEEK_CUR/SEEK_END, cursor "
         "movements under a condition in __init__/read_nonce/the scan iteration, accumulators other than bytes/list/stream/counter: undecided",
+        "state carried across calls other than a cached rolling key (remembered positions, read-ahead buffers), caches that are validated "
+        "where they are used (position comparison, validity flag), cached values other than a constant / a whole word read at the cursor / "
+        "a read_nonce() result: undecided; movements of the underlying file made from outside the class",
     ]
     rep.trusted_base = [
         "CPython ast", "networkx dominators", "SymPoly normal form",
@@ -526,6 +551,9 @@ def run(ctx):
         "chunk exactly once measures the bytes consumed from the underlying file",
         "lemma L7: after consuming c bytes from p0, a relative seek by n - c (absolute: tell() + n - c) leaves the file at p0 + n",
         "lemma L8: range(0, m, 1), or a counter from 0 stepped by exactly 1 and used under i < m, visits every integer 0 .. m - 1",
+        "lemma L9: a whole word read at the cursor is the rolling key of the position right after that read, read_nonce() returns the key "
+        "of the position it is called at, and neither is the key of any other position (arbitrary file contents): a key cached in an "
+        "attribute is right only if the cursor has not moved since, or a constant has been stored since",
         "struct.calcsize on constant format strings of the code (constant folding)",
         "scanner obligations of rules/c15.py (imported as R5)",
     ]
@@ -533,6 +561,7 @@ def run(ctx):
     r2(ctx)
     r3(ctx)
     r4(ctx)
+    r6(ctx)
     # automatic detection relies on the marker scan: the scanner obligations of C15 are necessary conditions here
     from rules import c15
 
@@ -1359,13 +1388,20 @@ def r2(ctx):
     R.assume = assume
     # give-back seeks: relative seek of n - <consumed>
     givebacks, other_seeks = [], []
-    for c in _raw_calls(f, "seek"):
+    # the view's own seek() forwards a relative seek unchanged (R1 checks that): `self.seek(d, SEEK_CUR)` is a relative seek of
+    # the underlying file; its other forms move the file by something this rule does not translate
+    own = [c for c in fn_calls(f.node) if isinstance(c.func, ast.Attribute) and isinstance(c.func.value, ast.Name) and c.func.value.id == params(f.node)[0]
+           and ctx.rs.resolve_call(f, c).fq == f"{CLS}.seek"]
+    for c in _raw_calls(f, "seek") + own:
         off, wh = _seek_args(c)
         w = 0 if wh is None else _const(ctx, f, wh)
         if off is None or not cfg.has(fv.stmt_of(c)):
             continue
         u: set = set()
         p = _poly(ctx, f, off, R.special(c, u))
+        if any(c is x for x in own) and w != 1:
+            other_seeks.append((c, None, None, {"<own seek>"}))
+            continue
         if (w == 1 and p == N - CONSUMED) or (w == 0 and p == POS + N - CONSUMED):
             givebacks.append(c)
             uses += [(nm, fv.stmt_of(c)) for nm in u - {"<tell>"}]
@@ -1631,6 +1667,390 @@ def _r3_read_nonce(ctx):
           "reads the 4 bytes before the position; uses initial_nonce in the first word",
           f"reads {[f'raw[{s[0]} : +{s[1]}]' for s in spans.values()]}; required the 4 bytes before the position={bool(prev)}; uses initial_nonce in the first word={bool(uses)}")
     _emit(ctx, "R3", "CURSOR", rn, t2, _verdict(pos, POS), "read_nonce leaves the cursor where it was", f"read_nonce leaves the cursor at {pos}; required: where it was")
+
+
+# ============================================================================================== R6: state carried across calls
+# A read-only file over the decoded bytes has exactly one piece of state, its position, and XorEncodedFile keeps it in the
+# cursor of the underlying file.  Whatever else a method leaves behind in an instance attribute for a later call (a cached
+# key, a remembered position, a read-ahead buffer) makes the result of read(n) depend on the history of calls unless it is
+# re-established or invalidated on every path on which the underlying cursor moves.
+_MOVERS = ("seek", "read", "read1", "readinto", "readinto1", "readline", "readlines", "readall", "write", "writelines", "truncate")
+_MUTATORS = ("append", "appendleft", "extend", "add", "update", "clear", "pop", "popleft", "popitem", "insert", "remove", "discard", "setdefault", "write",
+             "seek", "truncate", "sort", "reverse")
+_NOT_READ_PATH = ("__init__", "__repr__", "__str__", "__del__")
+_LOGGING = ("logger", "logging", "log", "print", "warnings")
+
+
+def _mname(m) -> str:
+    return m.qualname.split(".")[-1]
+
+
+def _instance_methods(ctx) -> list:
+    out = []
+    for m in ctx.repo.methods(CLS):
+        decos = {dotted(d.func) if isinstance(d, ast.Call) else dotted(d) for d in getattr(m.node, "decorator_list", [])}
+        if decos & {"classmethod", "staticmethod"} or not params(m.node):
+            continue
+        out.append(m)
+    return out
+
+
+def _attr_stores(m) -> List[Tuple[ast.stmt, str, Optional[ast.AST]]]:
+    """(statement, attribute, value | None) for everything a method leaves behind in an attribute of its instance: plain /
+    annotated / tuple assignment (value: the expression stored), augmented assignment, `del`, item stores and in-place
+    mutation of the attribute's object (value None: not a plain expression)."""
+    fn = m.node
+    sn = params(fn)[0]
+
+    def attr(t) -> Optional[str]:
+        return t.attr if isinstance(t, ast.Attribute) and isinstance(t.value, ast.Name) and t.value.id == sn else None
+
+    def held(t) -> Optional[str]:
+        return attr(t.value) if isinstance(t, ast.Subscript) else None
+
+    out: List[Tuple[ast.stmt, str, Optional[ast.AST]]] = []
+    for st in statements(fn):
+        if isinstance(st, ast.Assign):
+            for t in st.targets:
+                if attr(t):
+                    out.append((st, attr(t), st.value))
+                elif held(t):
+                    out.append((st, held(t), None))
+                elif isinstance(t, (ast.Tuple, ast.List)):
+                    paired = isinstance(st.value, (ast.Tuple, ast.List)) and len(st.value.elts) == len(t.elts) and not any(isinstance(x, ast.Starred) for x in list(t.elts) + list(st.value.elts))
+                    for k, x in enumerate(t.elts):
+                        a = attr(x) or held(x) or (attr(x.value) if isinstance(x, ast.Starred) else None)
+                        if a:
+                            out.append((st, a, st.value.elts[k] if paired and attr(x) else None))
+        elif isinstance(st, ast.AnnAssign) and st.value is not None and attr(st.target):
+            out.append((st, attr(st.target), st.value))
+        elif isinstance(st, ast.AugAssign) and (attr(st.target) or held(st.target)):
+            out.append((st, attr(st.target) or held(st.target), None))
+        elif isinstance(st, ast.Delete):
+            out += [(st, attr(t) or held(t), None) for t in st.targets if attr(t) or held(t)]
+        elif isinstance(st, ast.Expr) and isinstance(st.value, ast.Call) and isinstance(st.value.func, ast.Attribute) and st.value.func.attr in _MUTATORS and attr(st.value.func.value):
+            out.append((st, attr(st.value.func.value), None))
+    raw = RAW.split(".", 1)[1]
+    return [(st, a, v) for st, a, v in out if a != raw]
+
+
+def _attr_loads(m, name: str) -> List[ast.Attribute]:
+    """The places where a method reads the attribute (not the receiver of an in-place mutation / item store, which is a
+    store), other than in a statement that only logs."""
+    fn = m.node
+    fv = FuncView.of(fn)
+    sn = params(fn)[0]
+    out = []
+    for n in body_walk(fn):
+        if not (isinstance(n, ast.Attribute) and isinstance(n.ctx, ast.Load) and isinstance(n.value, ast.Name) and n.value.id == sn and n.attr == name):
+            continue
+        par = fv.parent.get(id(n))
+        if isinstance(par, ast.Subscript) and par.value is n and isinstance(par.ctx, (ast.Store, ast.Del)):
+            continue
+        st = fv.stmt_of(n)
+        if isinstance(par, ast.Attribute) and par.value is n and par.attr in _MUTATORS and isinstance(st, ast.Expr) and isinstance(st.value, ast.Call) and st.value.func is par:
+            continue
+        if isinstance(st, ast.Expr) and isinstance(st.value, ast.Call) and (dotted(st.value.func) or "").split(".")[0] in _LOGGING:
+            continue
+        out.append(n)
+    return out
+
+
+def _mentions(ctx, m, e, at, name: str, depth: int = 0) -> bool:
+    """Does the instance attribute `name` flow into expression e evaluated at `at` (through the reaching definitions of locals)?"""
+    if e is None or depth > 6:
+        return False
+    fn = m.node
+    sn = params(fn)[0]
+    for x in ast.walk(e):
+        if isinstance(x, ast.Attribute) and isinstance(x.value, ast.Name) and x.value.id == sn and x.attr == name:
+            return True
+        if isinstance(x, ast.Name) and isinstance(x.ctx, ast.Load) and x.id not in params(fn):
+            for s, v in reaching_defs(ctx, m, x.id, at):
+                if v is not None and _mentions(ctx, m, v, s, name, depth + 1):
+                    return True
+    return False
+
+
+def _position_free(ctx, m, e, at, state, depth: int = 0) -> bool:
+    """The value of expression e at `at` is computed without looking at the underlying file or at other carried state: from
+    constants, parameters and attributes set by the constructor only (a memo such as the decoded size of the header)."""
+    if e is None or depth > 6:
+        return False
+    fn = m.node
+    sn = params(fn)[0]
+    for x in ast.walk(e):
+        if isinstance(x, ast.Attribute) and isinstance(x.value, ast.Name) and x.value.id == sn and (x.attr in state or f"{sn}.{x.attr}" == RAW):
+            return False
+        if isinstance(x, ast.Call) and isinstance(x.func, ast.Attribute) and (_is_raw(fn, x.func.value) or _self_callee(ctx, m, x) is not None):
+            return False
+        if isinstance(x, ast.Name) and isinstance(x.ctx, ast.Load) and x.id not in params(fn):
+            rd = reaching_defs(ctx, m, x.id, at)
+            if any(v is None or not _position_free(ctx, m, v, s, state, depth + 1) for s, v in rd):
+                return False
+            if not rd and assignments_to(fn, x.id):
+                return False
+    return True
+
+
+def _is_key(ctx, ms, name: str) -> bool:
+    """The attribute is used where the rolling key of a read is expected: it flows into a value returned by read_nonce() or
+    into the key operand of the decode step."""
+    for m in ms:
+        fv = FuncView.of(m.node)
+        sinks = []
+        if m.fq == f"{CLS}.read_nonce":
+            sinks += [(r.value, r) for r in statements(m.node) if isinstance(r, ast.Return) and r.value is not None]
+        for x in fn_calls(m.node):
+            cal = ctx.rs.resolve_call(m, x)
+            if cal.kind == "func" and cal.func is not None and cal.fq == "utils.xor":
+                sinks.append((bind_args(x, cal.func.node).get("key"), fv.stmt_of(x)))
+        if any(at is not None and _mentions(ctx, m, e, at, name) for e, at in sinks):
+            return True
+    return False
+
+
+def _net_zero(ctx, m) -> bool:
+    """The straight-line seeks/reads of the underlying file in this method cancel (cursor typestate from the symbol
+    <raw position> ends at <raw position>): what read_nonce() does to fetch the word before the position."""
+    fn = m.node
+    fv = FuncView.of(fn)
+    raw = [c for c in fn_calls(fn) if isinstance(c.func, ast.Attribute) and c.func.attr in _MOVERS and _is_raw(fn, c.func.value)]
+    if not raw:
+        return True
+    if any(fv.enclosing(c, (ast.ExceptHandler,)) is not None for c in raw):
+        return False
+    tell_sp = _raw_tell_special(m)
+    posv = {st.targets[0].id for st in statements(fn) if isinstance(st, ast.Assign) and len(st.targets) == 1 and isinstance(st.targets[0], ast.Name) and tell_sp(strip_cast(st.value)) is not None}
+
+    def sp(x):
+        return POS if isinstance(x, ast.Name) and x.id in posv else tell_sp(x)
+
+    pos, _spans, problem = _simulate(ctx, m, fn_calls(fn), POS, lambda e: _poly(ctx, m, e, sp, stop=frozenset(posv)))
+    return problem is None and pos == POS
+
+
+def _self_callee(ctx, m, c):
+    """The method of the same class a call `self.m2(..)` resolves to."""
+    if not (isinstance(c.func, ast.Attribute) and isinstance(c.func.value, ast.Name) and c.func.value.id == params(m.node)[0]):
+        return None
+    cal = ctx.rs.resolve_call(m, c)
+    if cal.kind == "func" and cal.func is not None and cal.func.cls == m.cls and cal.func.module.name == m.module.name and cal.func.fq != m.fq:
+        return cal.func
+    return None
+
+
+def _movements(ctx, m, memo: Dict[str, bool]) -> List[Tuple[ast.Call, ast.stmt, Dict[str, bool]]]:
+    """(call, statement, assumption) for what may move the underlying cursor in method m: seeks (not `seek(0, SEEK_CUR)`) and
+    reads of the underlying file - a read whose result is bound to a local is a movement under the named assumption "the
+    chunk just read is non-empty" -, and calls of methods of the class that move it.  Movements that cancel inside the
+    method (`_net_zero`) are not movements of the method."""
+    fn = m.node
+    fv, cfg = FuncView.of(fn), ctx.cfg(m)
+    cancel = _net_zero(ctx, m)
+    out = []
+    for c in fn_calls(fn):
+        if not isinstance(c.func, ast.Attribute):
+            continue
+        st = fv.stmt_of(c)
+        if st is None or not cfg.has(st):
+            continue
+        a = c.func.attr
+        if _is_raw(fn, c.func.value):
+            if a not in _MOVERS or cancel:
+                continue
+            if a == "seek":
+                off, wh = _seek_args(c)
+                w, o = (0 if wh is None else _const(ctx, m, wh)), _const(ctx, m, off)
+                if w == 1 and _is_int(o) and o == 0:
+                    continue
+            if a.startswith("read") and c.args and _is_int(_const(ctx, m, c.args[0])) and _const(ctx, m, c.args[0]) == 0:
+                continue
+            assume: Dict[str, bool] = {}
+            if a.startswith("read") and isinstance(st, ast.Assign) and st.value is c and len(st.targets) == 1 and isinstance(st.targets[0], ast.Name):
+                v = st.targets[0].id
+                assume = {v: True, f"len({v}) == 0": False, f"len({v}) != 0": True, f"len({v}) > 0": True, f"len({v}) >= 1": True, f"len({v}) < 1": False,
+                          f"{v} == b''": False, f"{v} != b''": True, f"{v} is None": False}
+            out.append((c, st, assume))
+        else:
+            callee = _self_callee(ctx, m, c)
+            if callee is not None and _moves(ctx, callee, memo):
+                out.append((c, st, {}))
+    return out
+
+
+def _moves(ctx, m, memo: Dict[str, bool]) -> bool:
+    if m.fq not in memo:
+        memo[m.fq] = True  # a recursive cycle counts as moving
+        memo[m.fq] = bool(_movements(ctx, m, memo))
+    return memo[m.fq]
+
+
+def _always_stores(ctx, m, name: str) -> bool:
+    """every normal return of the method passes a store of the attribute"""
+    cfg = ctx.cfg(m)
+    ks = [cfg.node(st) for st, a, _v in _attr_stores(m) if a == name and cfg.has(st)]
+    return bool(ks) and not cfg.reaches(ENTRY, EXIT, avoiding=ks)
+
+
+def _key_value(ctx, m, e, at, depth: int = 0):
+    """('const' | 'key' | 'other', links): what kind of value expression e holds at statement `at`.
+    'const': a constant of the code (a sentinel that says nothing about the position);
+    'key':   the rolling key of the position the cursor has when the value is produced - the whole word just read from the
+             underlying file, or the result of read_nonce() - possibly held in locals; `links` are the (definition,
+             local, use) hops the value travels through;
+    'other': anything else (slices, arithmetic, conditional values, other attributes)."""
+    fn = m.node
+    fv = FuncView.of(fn)
+    if e is None or depth > 6:
+        return "other", []
+    e = strip_cast(e)
+    if isinstance(e, ast.Constant):
+        return "const", []
+    if isinstance(e, ast.Call):
+        if isinstance(e.func, ast.Attribute) and e.func.attr == "read" and _is_raw(fn, e.func.value):
+            return "key", []
+        if dotted(e.func) in ("bytes", "bytearray") and len(e.args) == 1 and not e.keywords:
+            return _key_value(ctx, m, e.args[0], at, depth + 1)
+        callee = _self_callee(ctx, m, e)
+        if callee is not None and callee.fq == f"{CLS}.read_nonce":
+            return "key", []
+        return "other", []
+    if isinstance(e, ast.Name) and e.id not in params(fn):
+        rd = reaching_defs(ctx, m, e.id, at)
+        ust = at if isinstance(at, ast.stmt) else fv.stmt_of(at)
+        if not rd or ust is None or any(v is None for _s, v in rd):
+            return ("const", []) if not rd and _const(ctx, m, e) is not None else ("other", [])
+        kinds, links = [], []
+        for s, v in rd:
+            dst = s if isinstance(s, ast.stmt) else fv.stmt_of(s)
+            k, l = _key_value(ctx, m, v, dst, depth + 1)
+            if k == "other" or dst is None:
+                return "other", []
+            kinds.append(k)
+            links += l
+            if k == "key":
+                links.append((dst, e.id, ust))
+        return ("key" if "key" in kinds else "const"), links
+    if _const(ctx, m, e) is not None:
+        return "const", []
+    return "other", []
+
+
+def r6(ctx):
+    cls_where = "xordecode.py::XorEncodedFile"
+    ms = _instance_methods(ctx)
+    stores = {m.fq: _attr_stores(m) for m in ms}
+    state = sorted({a for m in ms if _mname(m) != "__init__" for _st, a, _v in stores[m.fq]})
+    consumed, memos = {}, []
+    for name in state:
+        loads = [(m, n) for m in ms if _mname(m) not in _NOT_READ_PATH for n in _attr_loads(m, name)]
+        if loads and all(v is not None and _position_free(ctx, m, v, st, set(state)) for m in ms for st, a, v in stores[m.fq] if a == name):
+            memos.append(name)  # computed from the constructor's data alone: the same value at every position
+        elif loads:
+            consumed[name] = loads
+    t0 = "the cursor of the underlying file is the only state carried across calls"
+    if not consumed:
+        idle = [a for a in state if a not in consumed and a not in memos]
+        ctx.ob("R6", "CURSOR", cls_where, t0, True, "no attribute written outside the constructor is read back by read/seek/tell/read_nonce: what read(n) returns is a function of "
+               "the raw position and the constructor's header words only" + (f" (written but never read back on the read path: {idle})" if idle else "")
+               + (f" (memos computed from the constructor's data alone: {memos})" if memos else ""))
+        return
+    memo: Dict[str, bool] = {}
+    for name, loads in consumed.items():
+        text = f"state self.{name} carried across calls is re-established whenever the underlying cursor moves"
+        users = sorted({_mname(m) for m, _n in loads})
+        if not _is_key(ctx, ms, name):
+            ctx.undecided("R6", "CURSOR", cls_where, text, f"self.{name} is written outside the constructor and read back by {users}: the view keeps state besides the cursor of the "
+                          "underlying file; the rule only interprets a cached rolling key (a value that reaches the key operand of the decode step)")
+            continue
+        # a cache that is validated where it is used - against the current position or by other carried state (a validity flag,
+        # a remembered position) - is a different design: not followed
+        checked = False
+        for m, n in loads:
+            for _t, _pol, t in dominating_conditions(ctx, m, n):
+                sub = [origin(m.node, x) if isinstance(x, ast.Name) else x for x in ast.walk(t)]
+                tells = any(isinstance(y, ast.Call) and isinstance(y.func, ast.Attribute) and y.func.attr == "tell" for x in sub for y in ast.walk(x))
+                attrs = any(isinstance(y, ast.Attribute) and isinstance(y.value, ast.Name) and y.value.id == params(m.node)[0] and y.attr in state and y.attr != name
+                            for x in sub for y in ast.walk(x))
+                checked = checked or tells or attrs
+        if checked:
+            ctx.undecided("R6", "CURSOR", cls_where, text, f"the cached key self.{name} is used under a test on the current position or on other carried state: a validated cache is not followed")
+            continue
+        findings: List[Tuple[str, object, ast.AST, str]] = []
+        for m in ms:
+            fn, cfg, fv = m.node, ctx.cfg(m), FuncView.of(m.node)
+            mine = [(st, v) for st, a, v in stores[m.fq] if a == name and cfg.has(st)]
+            kills = [cfg.node(st) for st, _v in mine]
+            for c in fn_calls(fn):
+                callee = _self_callee(ctx, m, c)
+                st = fv.stmt_of(c)
+                if callee is not None and st is not None and cfg.has(st) and _always_stores(ctx, callee, name) and cfg.node(st) not in kills:
+                    kills.append(cfg.node(st))  # its own obligations say what it leaves behind
+            every = [(c, cfg.node(st), specialise(cfg, assume) if assume else cfg) for c, st, assume in _movements(ctx, m, memo)]
+            movs = [(c, mn, spec) for c, mn, spec in every if mn not in kills]  # a store in the moving statement itself happens after the movement
+            # (a) the value the method was entered with survives a movement of the cursor
+            if _mname(m) != "__init__":
+                for c, mn, spec in movs:
+                    if not (spec.reaches(ENTRY, mn, avoiding=kills) and spec.reaches(mn, EXIT, avoiding=kills)):
+                        continue
+                    unset = False
+                    for _t, pol, t in dominating_conditions(ctx, m, c):
+                        if isinstance(t, ast.Compare) and len(t.ops) == 1 and isinstance(t.comparators[0], ast.Constant) and t.comparators[0].value is None \
+                                and dotted(t.left) == f"{params(fn)[0]}.{name}" and isinstance(t.ops[0], (ast.Is, ast.IsNot, ast.Eq, ast.NotEq)):
+                            unset = unset or (isinstance(t.ops[0], (ast.Is, ast.Eq)) == pol)
+                        elif dotted(t) == f"{params(fn)[0]}.{name}" and not pol:
+                            unset = True
+                    if not unset:
+                        findings.append(("bad", m, c, f"{_mname(m)}() moves the underlying cursor (`{src(c)}`) on a path that neither resets nor re-establishes self.{name}: the key cached "
+                                         "for the old position is used by the next read at the new one"))
+                        break
+            # (b) what the method stores must be the key of the position it leaves the cursor at
+            for st, v in mine:
+                sn = cfg.node(st)
+                kind, links = _key_value(ctx, m, v, st)
+                if kind == "const":
+                    continue
+                if kind == "other":
+                    findings.append(("unknown", m, st, f"{_mname(m)}() stores `{src(v) if v is not None else src(st)}` in self.{name}: not a constant and not a whole word read at the cursor / "
+                                     "a read_nonce() result - its relation to the position is not followed"))
+                    continue
+                stale = None
+                for dst, local, ust in links:
+                    if not (cfg.has(dst) and cfg.has(ust)):
+                        continue
+                    dn, un = cfg.node(dst), cfg.node(ust)
+                    others = [cfg.node(s if isinstance(s, ast.stmt) else fv.stmt_of(s)) for s, _v in assignments_to(fn, local)
+                              if (s if isinstance(s, ast.stmt) else fv.stmt_of(s)) is not None and cfg.has(s if isinstance(s, ast.stmt) else fv.stmt_of(s))]
+                    others = [x for x in others if x != dn]
+                    for c, mn, spec in every:
+                        if mn in (dn, un):
+                            continue
+                        if spec.reaches(dn, mn, avoiding=others) and spec.reaches(mn, un, avoiding=others + [dn]):
+                            stale = (c, f"the word held in `{local}` is stored in self.{name} after `{src(c)}` has moved the cursor away from it")
+                            break
+                    if stale:
+                        break
+                if stale is None:
+                    for c, mn, spec in movs:
+                        if mn == sn:
+                            continue
+                        if spec.reaches(sn, mn, avoiding=[k for k in kills if k != sn]) and spec.reaches(mn, EXIT, avoiding=kills):
+                            stale = (c, f"{_mname(m)}() stores the key of the current position in self.{name} and then moves the cursor (`{src(c)}`) without resetting it: the next "
+                                        "sequential read decodes its first word with the key of another position (e.g. after a read that gives bytes of its last word back)")
+                            break
+                if stale is not None:
+                    findings.append(("bad", m, stale[0], stale[1]))
+        if not findings:
+            ctx.ob("R6", "CURSOR", cls_where, text, True, f"every store of self.{name} is a constant or the key of the position the method leaves the cursor at, and every movement of the "
+                   "underlying cursor is followed by a store")
+            continue
+        seen = set()
+        for v in ("bad", "unknown"):
+            for verdict, m, node, detail in findings:
+                if verdict == v and m.fq not in seen:
+                    seen.add(m.fq)
+                    _emit(ctx, "R6", "CURSOR", m, text, verdict, detail, detail, node)
 
 
 # ============================================================================================== R4: detection
